@@ -237,7 +237,7 @@ def run_replace_frame(it, st, util):
     st.oblige(f'{name}:type-names-and-order-unchanged', len(templates.items) == 2 and templates.items[0][0] is n1 and templates.items[1][0] is n2, ('C19',))
     return 'ok'
 
-REPL = ({'asset__file': '{project}/{type:a}/{task}/{state}', 'shot__file': '{project}/{type:s}/{task}/{state}', 'project': '{project}', 'xyz': '{project}/{task}'},
+REPL = ({'asset__file': '{project}/{type:a}/{task}/{state}', 'shot__file': '{project}/{type:s}/{task}/{state}', 'project': '{project}', 'xyz': '{project}/{task}/{state}', 'shot': '{project}/{type:s}/{task}'},      # bare types (no separator in the name) whose templates carry keys that only the '__' / 'shot__' selectors rewrite
         {'__': {'{state}': '{state:(w|p)}'}, 'asset__': {'{task}': '{task:(art|rig)}'}, 'shot__': {'{task}': '{task:(anim|fx)}'}, 't': {'{project}': '{project:(hamlet)}', '{type:a}': '{type:(a)}'}})
 def py_replace(templates, kp):
     out = dict(templates)
